@@ -36,6 +36,7 @@ pub enum Case {
     Transpose(Tensor),
     Clamp(Tensor, f32, f32),
     NestedAdd(Vec<Tensor>, Vec<Tensor>),
+    NestedOptAdd(Vec<Option<Tensor>>, Vec<Option<Tensor>>),
     NestedDiv(Vec<Tensor>, f32),
     Argmax(Tensor),
     Dropout(Tensor, f32),
@@ -128,6 +129,21 @@ impl Case {
                 a.iter().for_each(|o| enc_tensor_in(&mut t, o));
                 push_n(&mut t, b.len());
                 b.iter().for_each(|o| enc_tensor_in(&mut t, o));
+            }
+            Case::NestedOptAdd(a, b) => {
+                t.push(18);
+                for l in [a, b] {
+                    push_n(&mut t, l.len());
+                    for o in l.iter() {
+                        match o {
+                            Some(x) => {
+                                t.push(1);
+                                enc_tensor_in(&mut t, x)
+                            }
+                            None => t.push(0),
+                        }
+                    }
+                }
             }
             Case::NestedDiv(a, s) => {
                 t.push(14);
@@ -332,6 +348,13 @@ impl Case {
                 let mut x = Tensor::nested(a.clone());
                 x.add_inplace(&Tensor::nested(b.clone()));
                 enc_list_tensor_out(&mut t, &x.unnested())
+            }
+            Case::NestedOptAdd(a, b) => {
+                let mut x = Tensor::nestedoptional(a.clone());
+                x.add_inplace(&Tensor::nestedoptional(b.clone()));
+                let l = x.unnestedoptional();
+                push_n(&mut t, l.len());
+                l.iter().for_each(|o| enc_opt_tensor_out(&mut t, o))
             }
             Case::NestedDiv(a, s) => {
                 let mut x = Tensor::nested(a.clone());
